@@ -499,25 +499,39 @@ PROPS["C06"]["level_text"] = ("Two engines. Kani/CBMC, one-step inductive: every
 # C15: Object::unordered_eq, by symbolic execution of its MIR (drv/objcheck.py --unordered)
 def UNORD(tier, n, cap):
 	h = H("obj::unordered_eq_n%d" % n, "mir", tier, cap,
-	      "every pair of objects with the same number <= %d of entries: keys SYMBOLIC (one character each, a z3 integer over all Unicode scalar values >= 'A'; which keys coincide, within and across the two objects, is decided lazily by the solver), "
-	      "values over {0, 1}; both argument orders" % n, "objects of <= %d entries, scalar values" % n, gb=2.0)
+	      "every pair of objects of <= %d entries each, same size: keys SYMBOLIC (one character each, a z3 integer over all Unicode scalar values >= 'A'; which keys coincide, within and across the two objects, is decided lazily by the solver), "
+	      "values over {0, 1}; also every pair of different sizes <= %d; both argument orders" % (n, n), "objects of <= %d entries, scalar values" % n, gb=2.0)
 	h["tool"] = "objcheck"
 	h["unordered"] = n
 	return h
 
 
+def UNORDN(tier, level, cap):
+	what = "t, f, [t], {k:t}, {k:t,k:f}" if level == 1 else "t, f, [t], {k:t}, {k:t,k:f}, [], {}, {k:t,k:t}"
+	h = H("obj::unordered_eq_nested_l%d" % level, "mir", tier, cap,
+	      "every pair of arrays and every pair of objects of the same length <= 2 whose items / entry values are drawn from {%s} (plus pairs of different kind or length): EVERY key at every depth is its own symbolic key (which keys coincide is decided lazily by z3, also inside the index while the objects are built by interpreted pushes), scalars are booleans; "
+	      "Value::unordered_eq, Vec<Value>::unordered_eq and Object::unordered_eq run from MIR recursively; the result must equal the recursive definition evaluated under the same key decisions; both argument orders" % what,
+	      "two levels of nesting, outer length <= 2, inner values from a set of %d" % (5 if level == 1 else 8), gb=3.0)
+	h["tool"] = "objcheck"
+	h["unordered_nested"] = level
+	return h
+
+
 PROPS["C15"] = dict(
 	design_ref="DESIGN.md §0 (second engine) / §4 C15",
-	level_text="Symbolic execution of the MIR of Object::unordered_eq (and of the closures it passes to all/any) with z3: for every pair of objects of <= 3 (quick) / 4 (thorough) entries with SYMBOLIC keys — every pattern of coinciding keys inside and across the two objects — and values over {0, 1}, the result equals the permutation criterion (equality of the entry multisets), in both argument orders; counter-examples are replayed on the real Object.",
-	level_note="One level: values are scalars (the recursion of Value::unordered_eq into nested arrays and objects is outside); the index is the bucket-semantics model (C06). This is the check that exposed the multiplicity defect fixed in /repo (known-findings.txt).",
+	level_text="Symbolic execution of the MIR of Object::unordered_eq (and of the closures it passes to all/any) with z3: for every pair of objects of <= 3 (quick) / 4 (thorough) entries with SYMBOLIC keys — every pattern of coinciding keys inside and across the two objects — and values over {0, 1}, the result equals the permutation criterion (equality of the entry multisets), in both argument orders; and of Value / Vec<Value> / Object::unordered_eq recursively on pairs of two-level nested values with a symbolic key at every position, against the recursive definition; counter-examples are replayed on the real values.",
+	level_note="Flat check: values are scalars; nested check: two levels (Value / Vec / Object::unordered_eq recursively from MIR); the index is the bucket-semantics model (C06). This is the check that exposed the multiplicity defect fixed in /repo (known-findings.txt).",
 	functions=["<Object as UnorderedPartialEq>::unordered_eq and its closures (from MIR)", "Object::push / push_entry (from MIR, to build the objects)"],
 	bounds="objects of <= 3 (quick) / 4 (thorough) entries; values scalar",
 	outside=["nested values (recursion through Value::unordered_eq / Vec::unordered_eq)", "objects of more than 4 entries", "the Unordered wrapper's Hash"],
 	stubs=[], assumptions=["get_entries / get_entries_with_index are represented by the index's bucket semantics (C06); Value::unordered_eq on scalars is equality"],
-	harnesses=[UNORD("quick", 3, 900), UNORD("thorough", 4, 3600)],
+	harnesses=[UNORD("quick", 3, 900), UNORD("thorough", 4, 3600), UNORDN("quick", 1, 1200), UNORDN("thorough", 2, 5400)],
 )
 
 # ---------------------------------------------------------------------------
+PROPS["C15"]["functions"] = PROPS["C15"].get("functions", []) + ["<Value as UnorderedPartialEq>::unordered_eq, <Vec<T> as UnorderedPartialEq>::unordered_eq and its closure (from MIR, nested mode)"]
+PROPS["C15"]["outside"] = [x for x in PROPS["C15"]["outside"] if not x.startswith("nested values")] + ["values nested deeper than two levels; number and string scalars (booleans stand for scalars in the nested check)"]
+
 # C11: key-based mapped lookups by symbolic execution of their MIR (drv/objcheck.py --mapped)
 def MAPPED(tier, n, cap):
 	h = H("obj::mapped_lookups_n%d" % n, "mir", tier, cap,
